@@ -50,7 +50,7 @@ def category (req ans : String) : String :=
   | k :: f :: _ => s!"L1 {k} {f}"
   | _ => "?"
 
-def handle (strict : Bool) (req ans : String) : Verdict :=
+def handle (strict : Bool) (fuel : Nat) (req ans : String) : Verdict :=
   let r := words req
   match r with
   | "x" :: _ => handleL2 req ans
@@ -63,23 +63,23 @@ def handle (strict : Bool) (req ans : String) : Verdict :=
   | "asmx" :: _ => handleL3 req ans
   | "asmre" :: _ => handleL3 req ans
   | "role" :: _ => handleL3 req ans
-  | "cli" :: _ => handleL4 strict req ans
+  | "cli" :: _ => handleL4 strict fuel req ans
   | _ => handleL1 r (words ans)
 
-partial def loop (strict : Bool) (h : IO.FS.Stream) (out : IO.FS.Stream) (acc : Acc) : IO Acc := do
+partial def loop (strict : Bool) (fuel : Nat) (h : IO.FS.Stream) (out : IO.FS.Stream) (acc : Acc) : IO Acc := do
   let line ← h.getLine
   if line.isEmpty then return acc
   let line := (line.dropEndWhile (fun c => c == '\n' || c == '\r')).toString
-  if line.isEmpty then loop strict h out acc else
+  if line.isEmpty then loop strict fuel h out acc else
   if line.startsWith "scan " then
     -- exhaustive pre-filtered scan by the harness (`scan <group> <n> => ok`): n inputs on which the real code agreed
     -- with the harness-side filter; the disagreeing ones precede this line as ordinary requests
     let n := (((line.splitOn " => ").headD "").splitOn " ").getD 2 "0" |>.toNat!
-    loop strict h out { acc with n := acc.n + n, dist := acc.dist.insert "L1_scan" ((acc.dist.getD "L1_scan" 0) + n) }
+    loop strict fuel h out { acc with n := acc.n + n, dist := acc.dist.insert "L1_scan" ((acc.dist.getD "L1_scan" 0) + n) }
   else
   match line.splitOn " => " with
   | [req, ans] =>
-    let v := handle strict req ans
+    let v := handle strict fuel req ans
     let cat := category req ans
     let mut acc := { acc with n := acc.n + 1, dist := acc.dist.insert cat ((acc.dist.getD cat 0) + 1) }
     if v.model == "BADREQ" then
@@ -106,10 +106,10 @@ partial def loop (strict : Bool) (h : IO.FS.Stream) (out : IO.FS.Stream) (acc : 
         else
           out.putStrLn s!"DIFF-SPEC {line} | spec={v.spec} kf={v.kf}"
           acc := { acc with diffSpec := acc.diffSpec + 1 }
-    loop strict h out acc
+    loop strict fuel h out acc
   | _ =>
     out.putStrLn s!"BADLINE {line}"
-    loop strict h out { acc with n := acc.n + 1, badreq := acc.badreq + 1 }
+    loop strict fuel h out { acc with n := acc.n + 1, badreq := acc.badreq + 1 }
 
 end Driver
 
@@ -118,7 +118,9 @@ def main : IO Unit := do
   let stdout ← IO.getStdout
   -- VERIF_STRICT_OUT=1: the text written is itself the property (C16-C18, C20): no wording tolerance
   let strict := (← IO.getEnv "VERIF_STRICT_OUT") == some "1"
-  let acc ← Driver.loop strict stdin stdout {}
+  -- VERIF_MODEL_FUEL: step budget of the model's run loop (default 200000; the `deep` group needs millions)
+  let fuel := ((← IO.getEnv "VERIF_MODEL_FUEL").bind String.toNat?).getD 200000
+  let acc ← Driver.loop strict fuel stdin stdout {}
   let kfs := ",".intercalate (acc.kfs.map (fun p => s!"{p.1}:{p.2}"))
   let dist := ";".intercalate (acc.dist.toList.map fun (k, v) => s!"{k.replace " " "_"}={v}")
   stdout.putStrLn s!"DIST {dist}"
